@@ -1422,3 +1422,20 @@ def ref(bins, pairs_path, cool_path, metadata, assembly, chunksize):
         iterator = HDF5Aggregator(h5pairs, chromsizes, bins, chunksize)
         create_cooler(cool_path, bins, iterator, metadata=metadata, assembly=assembly, ordered=True)
 ''')
+
+
+_reg('cooler.fileops.ls', 'cooler.fileops', 'the group itself and every descendant, as absolute paths, in traversal order', '''
+def ref(uri):
+    filepath, grouppath = parse_cooler_uri(uri)
+    if not h5py.is_hdf5(filepath):
+        raise OSError("not an HDF5 file")
+    listing = []
+
+    def _check_all(pth, grp):
+        listing.append("/" + pth if not pth.startswith("/") else pth)
+
+    with h5py.File(filepath, "r") as f:
+        _check_all(grouppath, f)
+        visititems(f[grouppath], _check_all)
+    return listing
+''', nested=[('_check_all', '_check_all')])
